@@ -29,6 +29,7 @@ type C19Work struct {
 	Jobs     []C19Job `json:"jobs"`
 	GlobalWd string   `json:"global_wd,omitempty"`
 	NoPP     bool     `json:"no_pp,omitempty"`
+	WarmCwd  string   `json:"warm_cwd,omitempty"` // an earlier Persist of the same generator state, made from another working directory (SDK host that chdirs between calls)
 	PPYields int      `json:"pp_yields,omitempty"`
 }
 
@@ -106,6 +107,10 @@ func (c19Driver) Gen(seed uint64, tier string) *simrt.Spec {
 		w.GlobalWd = []string{"/work", "/work/sub", "/elsewhere"}[r.Intn(3)]
 	}
 	w.NoPP = r.Chance(1, 10)
+	if w.GlobalWd != "" && r.Chance(1, 2) {
+		w.WarmCwd = []string{"/w2", "/w2/deep", "/"}[r.Intn(3)]
+		sp.Dirs = append(sp.Dirs, "/w2/deep")
+	}
 	w.PPYields = r.Intn(4)
 	// storage faults
 	if failMode >= 2 && n > 0 {
@@ -267,6 +272,9 @@ func (c19Driver) Run(spec *simrt.Spec, agg *Agg, keep bool) *Outcome {
 	for p := range spec.Files {
 		pre[filepath.Clean(p)] = true
 	}
+	if work.WarmCwd != "" && work.GlobalWd != "" {
+		pre[c19Resolve(cwd, work.GlobalWd, "warm/earlier.go")] = true
+	}
 
 	specK := *spec
 	specK.KeepLog = true
@@ -291,6 +299,16 @@ func (c19Driver) Run(spec *simrt.Spec, agg *Agg, keep bool) *Outcome {
 			Log: lf,
 		})
 		_ = gres
+		if work.WarmCwd != "" && work.GlobalWd != "" {
+			// an earlier call from another working directory; what it leaves behind must not matter
+			if simrt.Chdir(work.WarmCwd) == nil {
+				nm := "warm/earlier.go"
+				_ = g.Persist(&plugin.Response{Contents: []*plugin.Generated{{Name: &nm, Content: "package warm\n"}}})
+				_ = simrt.Chdir(cwd)
+				dir_utils.SetGlobalwd(work.GlobalWd)
+			}
+			simrt.Boundary("observed-call")
+		}
 		// Persist is handed the entries directly (Generate above only installs the
 		// post-processor and the logger), so the response is exactly the job list
 		pres := be.response()
